@@ -43,7 +43,17 @@ def run_witness(wfile, repo):
     ok, err = _BUILT[repo]
     if not ok:
         return {"reproduced": False, "error": "replay crate does not build: " + err}
-    p = subprocess.run([replay_bin(), "--file", wfile], capture_output=True, text=True, timeout=120)
+    try:
+        wants_hang = '"hangs"' in open(wfile).read()
+    except OSError:
+        wants_hang = False
+    try:
+        p = subprocess.run([replay_bin(), "--file", wfile], capture_output=True, text=True, timeout=20 if wants_hang else 120)
+    except subprocess.TimeoutExpired:
+        # the rewrite call did not return: that is the violation a `hangs` witness describes; for any other witness the run
+        # is simply not usable
+        return {"reproduced": wants_hang, "output": "the call did not return within the time limit (REPRODUCED: hangs)" if wants_hang else "timeout",
+                "witness_file": wfile, "stderr": ""}
     out = p.stdout
     return {"reproduced": "REPRODUCED" in out and "NOT-REPRODUCED" not in out, "output": out[-4000:],
             "witness_file": wfile, "stderr": p.stderr[-1000:]}
